@@ -72,8 +72,9 @@ def make_selector(rng):
     return TournamentSelector([], dominance=EpsilonDominance, epsilons=[rng.choice([1e-3, 0.01, 0.1, 1.0])])
 
 
-def sort_event(inds, rng=None):
-    sel = make_selector(rng)
+def sort_event(inds, rng=None, sel=None):
+    sel = sel or make_selector(rng)
+    sort_event.last_selector = sel
     pop = project_population(inds)
     st, res = observe(sel.fast_nondominated_sorting, inds)
     ev = {"ev": "sort", "pop": pop, "ranks": [], "exc": ""}
@@ -135,7 +136,8 @@ class Sort(Part):
                 rng.shuffle(inds)
                 for i in inds:
                     i.features = copy.deepcopy(i.features)
-                trace.append(sort_event(inds, rng))
+                # ... half of the time with the very selector object of the first sort (one selector lives as long as its algorithm)
+                trace.append(sort_event(inds, rng, sel=sort_event.last_selector if rng.random() < 0.5 else None))
             return trace
         if case["kind"] == "random":
             from artap.individual import Individual
